@@ -39,7 +39,9 @@ def run_cases(run: Run, cases, defaults, workers=None):
         for t, r in comp.map(tasks, fn=work.do_task):
             results[t["key"]] = r
             if "rec" not in r:
-                run.harness_error(t["key"], r.get("error", "worker failure"))
+                # a killed/timed-out worker is never a pass and never an alarm: inconclusive, unless it is systematic
+                stats["worker_failures"] = stats.get("worker_failures", 0) + 1
+                run.inconc(t["key"], r.get("error", "worker failure"))
                 continue
             run.merge(r["rec"])
             stats["compiles"] += len(r["compiled"])
@@ -60,6 +62,8 @@ def run_cases(run: Run, cases, defaults, workers=None):
     finally:
         comp.close()
     stats["compile_seconds"] = round(stats["compile_seconds"], 1)
+    if stats.get("worker_failures", 0) > max(2, len(cases) // 5):
+        run.harness_error("pool", f"{stats['worker_failures']} of {len(cases)} tasks lost to worker failures/timeouts")
     return results, stats
 
 
